@@ -123,6 +123,15 @@ SPECS = {
         800,
         40000,
     ),
+    "C13": _rt(
+        "The daemon runs its configured pipeline until stopped; failures set exit status",
+        "one daemon per seed: cobald.daemon.core.main.cli_run() on the process-global runtime with a generated configuration (YAML: !Tag mapping/sequence/bare and __type__ elements in any mixture, optional "
+        "logging / extra plugin section; Python module with >>; shipped and instrumented elements, services of all flavours), one fault or none (13 kinds of configuration error, a service failing at a seeded "
+        "time with a seeded kind), SIGINT at a seeded time, GC at seeded points; non-trivial = every run (a whole daemon life cycle); "
+        "distinct = distinct (format, element classes and forms, fault, extras, exit status, schedule-trace hash)",
+        800,
+        40000,
+    ),
     "C09": _pl(
         "Periodic services act once per interval",
         "one world per seed: a shipped periodic service over recording pools, a generated timed environment script "
